@@ -29,6 +29,22 @@ def laws(ctx, n):
         r = ctx.call("ke_random_sk", ctx.sk_tape())
         if ctx.expect(r.ok, "random_sk succeeds"):
             sks.append(r.b(0))
+    # sampled keys are valid keys whatever the tape starts with: chunks that are not a key (zero, the order, beyond)
+    # are skipped, never returned
+    if L.ke in WCURVES:
+        n_ = WCURVES[L.ke][1]
+        bad_chunks = [bytes(L.Nsk), n_.to_bytes(L.Nsk, "big"), b"\xff" * L.Nsk]
+    elif L.ke == "R255":
+        bad_chunks = [bytes(64), ELL.to_bytes(32, "little") + bytes(32)]
+    else:
+        bad_chunks = []
+    for ch in bad_chunks:
+        r = ctx.call("ke_random_sk", ch + ctx.sk_tape())
+        if ctx.expect(r.ok, "random_sk on a tape that starts with a chunk that is not a key"):
+            v = ctx.call("ke_sk", r.b(0))
+            ctx.expect(v.ok and v.b(0) == r.b(0) and any(r.b(0)), "the sampled key is a valid, non-zero key whose encoding round-trips")
+            pk = ctx.call("ke_pub", r.b(0))
+            ctx.expect(pk.status in ("OK", "ERR") and pk.ok, "and has a public key")
     seeds = [bytes(L.Nsk), b"\xff" * L.Nsk] + [ctx.tape(L.Nsk) for _ in range(n)]
     for sd in seeds:
         r = ctx.call("ke_derive", sd)
